@@ -10,6 +10,7 @@ cdef class ServiceRegistry:
     cdef public cython.dict types
     cdef public cython.dict servers
     cdef public bint has_entries
+    cdef cython.dict _advertised_addresses
 
     @cython.locals(
         record_list=cython.list,
@@ -25,6 +26,8 @@ cdef class ServiceRegistry:
     cdef _remove(self, cython.list infos)
 
     cpdef ServiceInfo async_get_info_name(self, str name)
+
+    cpdef cython.list async_get_advertised_addresses(self, str name)
 
     cpdef cython.list async_get_types(self)
 
